@@ -2,10 +2,10 @@
    the real handler performed with the answer it got, and its response.  [replay_step] runs the model
    in lock-step against the recorded effects. *)
 From AS Require Import Base.Str Http.Cookie Url.Escape Oidc.Types Oidc.Prog Oidc.Handler Corr.Common.
-From AS Require Export Oidc.Spec.
+From AS Require Export Oidc.Spec Oidc.Monitors.
 
 Record step := { s_now : Z; s_req : request; s_trace : list (eff * ans); s_resp : outcome }.
-Record hist := { h_cfg : cfg; h_db : list (string * idtok); h_steps : list step }.
+Record hist := { h_cfg : cfg; h_db : list (string * idtok); h_secrets : list string; h_steps : list step }.
 
 Definition db_of (l : list (string * idtok)) : tokdb :=
   fun s => match lookup s l with Some d => d | None => unparsable end.
@@ -53,14 +53,6 @@ End Driver.
 
 (* ---- helpers for monitors ---- *)
 Definition sid_of (c : cfg) (s : step) : string := session_id_from_cookie (cookie_prefix c) (r_cookie (s_req s)).
-
-Definition answer_ok (a : ans) : bool :=
-  match a with
-  | AUnit ok => ok | ATok None => false | AAuth None => false | AJwks ok => ok
-  | AIdp (IdpBody _) => true | AIdp _ => false | _ => true
-  end.
-Definition all_answers_ok (tr : list (eff * ans)) : bool := forallb (fun ea => answer_ok (snd ea)) tr.
-
 
 (* ghost session table rebuilt from the PERFORMED effects: what is bound to each id *)
 Inductive gsess := GSTokens (t : tokens) | GSUnknown.   (* GSUnknown: a write/remove was reported failed *)
